@@ -166,7 +166,6 @@ def handleUnterminatedStrExpr (cfg : Cfg) : Prog Unit := do
   if (← lastTokIsStart) then perform (.updateLastToken .DEFAULT .StringLiteral .reg)
   else emitD .StringExprEnd .reg
   emitError .UnterminatedStringLiteral
-  popMode
 
 /-- payload comes in the payload register -/
 def lexDoubleQuotedLiteral (cfg : Cfg) : Prog Unit := do
@@ -226,6 +225,8 @@ def lexStrExprText (cfg : Cfg) : Prog Unit := do
   | .eof =>
     perform (.litResolve 0)
     handleUnterminatedStrExpr cfg
+    -- `finalize_lexing` calls the handler with the mode already popped: the pop is here
+    popMode
 
 def strExprEndType (c : Option Char) (n : Char) : TokenType × Nat :=
   match c with
